@@ -565,6 +565,20 @@ func runC18(c *Ctx) {
 		}
 		cyclic := g.Cyclic()
 		c.Hit("family:" + fam.name)
+		// the whole specification in one call: its sections (definitions, parameters, responses, paths) are expanded
+		// one after the other and must share what was fetched
+		for _, wo := range []expOpts{{}, {Skip: true}, {Absolute: true}} {
+			wres := expandWorld(w, wo)
+			if wres.Panic != "" || wres.Hang || wres.Err != nil {
+				continue // decided by C04 / C08
+			}
+			c.Count(fmt.Sprint(worldJSON(w), wo.String()), len(w.Docs) > 1)
+			c.Hit("whole-spec:" + wo.String())
+			if u, dup := hasDup(wres.Loads); dup {
+				c.Fail(Failure{Kind: "oracle", Sig: "C18:fetched-twice", What: u + " was requested from the loader twice within one ExpandSpec call (" + wo.String() + ")",
+					Case: map[string]interface{}{"world": worldJSON(w), "entry": "ExpandSpec", "options": wo.String(), "loads": wres.Loads, "family": fam.name}})
+			}
+		}
 		var calls []entryCall
 		calls = append(calls, rootElements(w, "definitions", "schemaWithBase")...)
 		if len(w.Docs) == 1 {
